@@ -1493,6 +1493,19 @@ class Folder:
             if short in ("eq", "ne", "gt", "lt", "ge", "le") and nm.startswith("torch.") and len(node.args) == 2 and not node.keywords:
                 op_ = {"eq": ast.Eq, "ne": ast.NotEq, "gt": ast.Gt, "lt": ast.Lt, "ge": ast.GtE, "le": ast.LtE}[short]()
                 return self.fold(ast.Compare(left=node.args[0], ops=[op_], comparators=[node.args[1]]))
+            if short == "equal" and nm == "torch.equal" and len(node.args) == 2 and not node.keywords:
+                a_, b_ = self.fold(node.args[0]), self.fold(node.args[1])
+                if isinstance(a_, PySeq) or isinstance(b_, PySeq):
+                    raise Unfoldable("torch.equal of python sequences")
+
+                def _eqv(x, y):
+                    if isinstance(x, list) != isinstance(y, list):
+                        return False
+                    if isinstance(x, list):
+                        return len(x) == len(y) and all(_eqv(p_, q_) for p_, q_ in zip(x, y))
+                    return x == y
+
+                return _eqv(a_, b_)
             if short == "view_as_real" and nm.startswith("torch.") and len(node.args) == 1 and not node.keywords:
                 v_ = self.fold(node.args[0])
 
